@@ -193,12 +193,22 @@ def run(R):
         for k in range(2):
             size = [rng.randrange(1, 14) for _ in range(3)]
             cs = [rng.choice([1, 2, 3, 4, 8]) for _ in range(3)]
-            sc = {"key": f"s{k}", "size": size, "chunk_sizes": [cs], "encoding": enc,
+            enc_k = enc
+            if k == 1 and rng.random() < 0.5:
+                # another encoding for the second scale (allowed by the format)
+                if dt == "uint8" and nch in (1, 3):
+                    enc_k = "jpeg" if enc == "raw" else "raw"
+                elif dt in ("uint32", "uint64"):
+                    enc_k = "raw" if enc == "compressed_segmentation" else "compressed_segmentation"
+            sc = {"key": f"s{k}", "size": size, "chunk_sizes": [cs], "encoding": enc_k,
                   "resolution": [1, 1, 1], "voxel_offset": [0, 0, 0]}
-            if enc == "compressed_segmentation":
+            if enc_k == "compressed_segmentation":
                 sc["compressed_segmentation_block_size"] = [rng.choice([1, 2, 4, 8]) for _ in range(3)]
             scales.append(sc)
         info = {"type": "image", "data_type": dt, "num_channels": nch, "scales": scales}
+        enc_of = {x["key"]: x["encoding"] for x in scales}
+        if len(set(enc_of.values())) > 1:
+            R.count("seq:mixed-encodings")
         kind = rng.choice(["mem", "file-deep-gz", "file-flat", "file-flat-gz", "file-deep"])
         d = os.path.join(R.tmp, f"seq{si}")
         if kind == "mem":
@@ -221,7 +231,7 @@ def run(R):
                 c, ckind = mutate_coords(rng, sc["size"], sc["chunk_sizes"][0])
             if rng.random() < 0.6:
                 shape = (nch, max(c[5] - c[4], 1), max(c[3] - c[2], 1), max(c[1] - c[0], 1))
-                if enc == "jpeg":
+                if "jpeg" in (enc, scales[1]["encoding"]):
                     base = np.add.outer(np.add.outer(np.arange(shape[1]), np.arange(shape[2])), np.arange(shape[3]))
                     arr = np.stack([(base * 3 + 40 * ch + rng.randrange(20)) % 200 for ch in range(nch)]).astype(dt)
                 elif dt == "float32":
@@ -237,7 +247,7 @@ def run(R):
                 r = rng.random()
                 if r < 0.2 and arr.dtype.itemsize > 1:
                     given = arr.astype(arr.dtype.newbyteorder(">"))
-                elif r < 0.3 and enc == "raw" and dt in ("uint16", "uint32", "uint64", "float32"):
+                elif r < 0.3 and sc["encoding"] == "raw" and dt in ("uint16", "uint32", "uint64", "float32"):
                     small = np.array([rng.randrange(256) for _ in range(arr.size)], dtype="uint8").reshape(arr.shape)
                     given, want = small, small.astype(dt)
                 arrays.append(want)
@@ -280,7 +290,7 @@ def run(R):
                         R.violation("read_chunk returned data for a chunk never written",
                                     {"info": info, "coords": list(c)}, {})
                     else:
-                        jpeg_err = max(jpeg_err, _compare(R, info, c, arrays[want_tok], arr, enc))
+                        jpeg_err = max(jpeg_err, _compare(R, info, c, arrays[want_tok], arr, enc_of[key]))
                     impl_c = ["ok", want_tok if want_tok is not None else -1]
                 else:
                     impl_c = impl
@@ -300,7 +310,7 @@ def run(R):
                 R.violation("fresh handle cannot read a written chunk", {"info": info, "coords": list(c)},
                             {"impl": impl})
             else:
-                jpeg_err = max(jpeg_err, _compare(R, info, c, arrays[tok], impl[1], enc))
+                jpeg_err = max(jpeg_err, _compare(R, info, c, arrays[tok], impl[1], enc_of[key]))
         case = {"encoding": enc, "data_type": dt, "num_channels": nch, "accessor": kind,
                 "scales": [[s["size"], s["chunk_sizes"][0]] for s in scales],
                 "ops": [[o[0], o[2], list(o[3]), o[4]] for o in ops]}
